@@ -216,9 +216,29 @@ def run(P, R, tier):
     if gname:
         defs = [d for d in astq.assignments(perform, gname) if d[0] == 'expr']
         last = defs[-1][1] if defs else None
+        hops = 0
+        while isinstance(last, ast.Name) and hops < 4:          # `geometry = active` where `active = meta.geometry.name`
+            d2 = [d for d in astq.assignments(perform, last.id) if d[0] == 'expr']
+            if len(d2) != 1:
+                break
+            last = d2[0][1]
+            hops += 1
         okf = last is not None and norm(last).endswith('.geometry.name')
         # and set_geometry(geometry) was applied to the same meta when geometry was given
-        okf = okf and any(isinstance(c.func, ast.Attribute) and c.func.attr == 'set_geometry' for c in astq.own_calls(perform))
+        sg_calls = [c for c in astq.own_calls(perform) if isinstance(c.func, ast.Attribute) and c.func.attr == 'set_geometry']
+        okf = okf and bool(sg_calls)
+        if okf:
+            # ordering: the name is read from the meta frame AFTER the requested geometry was applied to it
+            import cfg as cfgmod
+            Cp = cfgmod.build(perform.node)
+            dstmt = next((a for a in walk_own(perform.node) if isinstance(a, ast.Assign) and a.value is last), None)
+            for c in sg_calls:
+                sstmt = next((a for a in walk_own(perform.node) if isinstance(a, (ast.Assign, ast.Expr)) and any(x is c for x in ast.walk(a))), None)
+                if dstmt is not None and sstmt is not None:
+                    R.check(not Cp.can_reach(Cp.node(dstmt), Cp.node(sstmt)), 'C12.f', perform, dstmt,
+                            'the active geometry name is read from the meta frame after set_geometry(geometry) was applied',
+                            f'`{norm(dstmt)}` is evaluated before `{norm(sstmt)}`: with geometry= given, the bounds filter (and the bounds reported) use the first geometry column instead of the requested one',
+                            construct='geometry name read after set_geometry')
     R.check(okf, 'C12.f', perform, tf, 'the filter uses the bounds of the active geometry (meta.geometry.name after set_geometry)',
             'the bounds filter is not keyed by the active geometry of the result')
     mask_stmt = None
